@@ -29,7 +29,9 @@ ASSUME ScaleExamples ==
    /\ ~InRange(2, <<TRUE, <<5, 1, 3>>>>)
    /\ InRange(8, <<FALSE, <<5, 1, 2>>>>)
    /\ ~InRange(16, <<FALSE, Scale(<<1>>, 12)>>) /\ InRange(16, <<FALSE, Scale(<<5>>, 11)>>)
-   /\ ~BeyondDouble(Scale(<<1>>, 308)) /\ BeyondDouble(Scale(<<1>>, 309))
+   /\ ~ScaledInRange(16, <<FALSE, <<1>>>>, 12) /\ ScaledInRange(16, <<FALSE, <<5>>>>, 11)
+   /\ ScaledInRange(2, <<TRUE, <<5, 1, 2>>>>, 0) /\ ~ScaledInRange(2, <<FALSE, <<5, 1, 2>>>>, 0)
+   /\ ~BeyondDouble(<<1>>, 308) /\ BeyondDouble(<<1>>, 309) /\ ~BeyondDouble(<<0>>, 400)
    /\ NumeralTooLong(<<0,0,0,0,0,0,0,1,0,1>>, 9) /\ ~NumeralTooLong(<<0,0,0,0,0,0,0,1,0,1>>, 6)
    /\ ~NumeralTooLong(Z, 400)
 ====
